@@ -66,6 +66,8 @@ def cli_histories(ctx):
 
 
 def run(ctx):
+    # (quick tier: the first 64 solved cases - the fixed families come first - go through the Coq model; the thorough tier takes all)
+    SPEC["stages"] = [("F", solcore.stageF, P.stageF_v, 2, 64 if ctx.tier == "quick" else None)]
     core.run(ctx, SPEC)
     n = cli_histories(ctx)
     ctx.coverage["cli_history_commands"] = n
